@@ -36,8 +36,12 @@ RULES = {
     "remapping, drop/cascade helpers of the core classes) decides after a loop whether to use the rebuilt tuple, the flag it "
     "tests was set monotonically inside the loop - `changed = spec_changed` remembers only the last configuration, so the "
     "remapped sharding references of earlier configurations are thrown away and keep naming the source graph's values",
+    "R10": "what is done for every detached value is done inside the loop over them (shared rule S17): in the methods of Node and in the "
+    "cloner, no statement after a `for` loop reads the loop's variable - `self._drop_sharding_for_value(output)` one indent level out "
+    "runs for the last removed output only, and the annotations of the other removed outputs keep pointing at values that are no "
+    "longer inputs or outputs of the node",
 }
-FLOORS = {"R1": 12, "R2": 4, "R3": 4, "R4": 4, "R5": 4, "R6": 6, "R7": 2, "R8": 3, "R9": 2}
+FLOORS = {"R1": 12, "R2": 4, "R3": 4, "R4": 4, "R5": 4, "R6": 6, "R7": 2, "R8": 3, "R9": 2, "R10": 10}
 EXPLANATION = (
     "Structural checks on the record classes, on every writer of a node's input/output tuples, on the serializer's "
     "name derivation, the C06 write-before-reject analysis for the annotation API, and ordering (dominator) checks in "
@@ -369,6 +373,10 @@ def rule_r6(ctx):
 
 
 def run(ctx):
+    from ..shared import rule_s17
+
+    rule_s17(ctx, "R10", lambda f: (f.owner_class is not None and f.owner_class.name == "Node" and f.module.name == "onnx_ir._core") or f.module.name == "onnx_ir._cloner",
+             "sharding annotations of the other values keep targeting values that left the node")
     rule_r1(ctx)
     rule_r2(ctx)
     rule_r3(ctx)
